@@ -441,10 +441,10 @@ theorem estep_printFields (E : ESpec env n) : ∀ p p' fs verb d ro f, Eqv p p' 
   | nil => simp only; emono
   | cons name exported it v rest =>
     simp only
-    have g1 : Eqv (if f = true then p else if p.f.sharpV = true then p.w ", ".toUTF8.toList else p.wb 0x20)
-        (if f = true then p' else if p.f.sharpV = true then p'.w ", ".toUTF8.toList else p'.wb 0x20) := by emono
-    generalize (if f = true then p else if p.f.sharpV = true then p.w ", ".toUTF8.toList else p.wb 0x20) = p1 at g1 ⊢
-    generalize (if f = true then p' else if p.f.sharpV = true then p'.w ", ".toUTF8.toList else p'.wb 0x20) = p1' at g1 ⊢
+    have g1 : Eqv (if f = true then p else if p.f.sharpV = true then p.w ([0x2C, 0x20] /- ", " -/ : List UInt8) else p.wb 0x20)
+        (if f = true then p' else if p.f.sharpV = true then p'.w ([0x2C, 0x20] /- ", " -/ : List UInt8) else p'.wb 0x20) := by emono
+    generalize (if f = true then p else if p.f.sharpV = true then p.w ([0x2C, 0x20] /- ", " -/ : List UInt8) else p.wb 0x20) = p1 at g1 ⊢
+    generalize (if f = true then p' else if p.f.sharpV = true then p'.w ([0x2C, 0x20] /- ", " -/ : List UInt8) else p'.wb 0x20) = p1' at g1 ⊢
     eprep g1
     emono
 
